@@ -568,7 +568,8 @@ def k_identity(ctx: Any) -> None:
         d = rng.choice(pool + [None]) if rng.random() < 0.8 else "".join(rng.choice("ab\x00cé") for _ in range(rng.randrange(4)))
         p = rng.choice(pool + [None]) if rng.random() < 0.8 else "".join(rng.choice("ab\x00cé") for _ in range(rng.randrange(5)))
         idents.append((rng.choice(["user", "user", "user", "unauth"]), d, p))
-    methods = ["gena", "genb", "g", "", "exc", "méthode", "a" * 30]
+    methods = ["gena", "genb", "g", "", "exc", "méthode", "a" * 30, "a" * 32, "a" * 33, "b" * 32 + "1", "b" * 32 + "2", "é" * 16 + "x",
+               "c" * 64, "c" * 65, "d" * 300]
     reqs = []
     impl = []
     for i, idt in enumerate(idents):
